@@ -44,9 +44,13 @@ def build_loss(c, kind, sel, tp, ts_sel, n, weighted, spread_form, time_kind="sy
     L.theta_full = [c.real("beta", lo=0.05, hi=0.3), c.real("gamma", lo=0.2, hi=1.0)]
     if x0_kind == "sym":
         L.x0 = arr(c, [c.real("x0_%s" % s, lo=1, hi=10) for s in STATES])
-    else:
+    elif x0_kind == "float64":
         # a TYPED initial state: the caller's own float64 array (what np.asarray(.., float) hands back uncopied)
         L.x0 = np.array([6.0, 2.0, 1.5], dtype=np.float64)
+    elif x0_kind == "int_list":
+        L.x0 = [6, 2, 1]            # whole-number initial values written as Python ints (the commonest way to write them)
+    else:
+        L.x0 = np.array([6, 2, 1], dtype=np.int64)
     if time_kind == "sym":
         L.t0 = c.real("t0")
         prev = L.t0
@@ -203,7 +207,7 @@ def cost_unit(kind, sel, tp, n, weighted=False, spread_form="scalar", entry="cos
                     # costIV: parameters followed by the initial values of the target states
                     tsn = ts_sel if ts_sel is not None else STATES
                     # (a float64 initial-state array cannot hold symbolic values: concrete initial values there)
-                    L.x0_free = [c.real("iv_%s" % s, lo=1, hi=10) for s in tsn] if x0_kind == "sym" else [3.0 + 1.5 * k_ for k_ in range(len(tsn))]
+                    L.x0_free = [c.real("iv_%s" % s, lo=1, hi=10) for s in tsn] if x0_kind == "sym" else [3.25 + 1.5 * k_ for k_ in range(len(tsn))]
                     for s, v in zip(tsn, L.x0_free):
                         x0_used[STATES.index(s)] = v
                     out = L.obj.costIV(arr(c, list(L.theta) + L.x0_free))
@@ -219,7 +223,7 @@ def cost_unit(kind, sel, tp, n, weighted=False, spread_form="scalar", entry="cos
                 out = L.obj.residual(L.theta_arg)
             else:
                 tsn = ts_sel if ts_sel is not None else STATES
-                L.x0_free = [c.real("iv_%s" % s, lo=1, hi=10) for s in tsn] if x0_kind == "sym" else [3.0 + 1.5 * k_ for k_ in range(len(tsn))]
+                L.x0_free = [c.real("iv_%s" % s, lo=1, hi=10) for s in tsn] if x0_kind == "sym" else [3.25 + 1.5 * k_ for k_ in range(len(tsn))]
                 for s, v in zip(tsn, L.x0_free):
                     x0_used[STATES.index(s)] = v
                 out = L.obj.costIV(np.array(list(L.theta) + L.x0_free))
@@ -240,7 +244,7 @@ def cost_unit(kind, sel, tp, n, weighted=False, spread_form="scalar", entry="cos
     return Unit("C06.%s[%s,states=%s,target=%s,n=%d,w=%s,spread=%s,ts=%s%s]" % (entry, kind, "+".join(sel), "all" if tp is None else "+".join(tp), n, weighted, spread_form, ts_sel,
                                                                               ("" if time_kind == "sym" else ",times=" + time_kind) + ("" if y_kind == "sym" else ",y=" + y_kind) + ("" if x0_kind == "sym" else ",x0=" + x0_kind)), h,
                 bounds={"model": "S,J,R / beta,gamma", "times": n, "time_inputs": "symbolic reals" if time_kind == "sym" else "concrete %s 1..n with t0=0.5" % time_kind, "observed_states": list(sel), "target_param": tp, "weights": "symbolic" if weighted else "unit",
-                        "spread": spread_form, "x0": "symbolic reals" if x0_kind == "sym" else "the caller's float64 array [6, 2, 1.5]"}, program={"loss": kind, "sel": list(sel), "tp": tp}, tol=2e-5, max_paths=400)
+                        "spread": spread_form, "x0": "symbolic reals" if x0_kind == "sym" else "typed: %s" % x0_kind}, program={"loss": kind, "sel": list(sel), "tp": tp}, tol=2e-5, max_paths=400)
 
 
 def zero_unit():
@@ -370,6 +374,8 @@ class C06(Check):
         # typed initial state (the caller's float64 array) with an initial-value evaluation: the caller's array stays as it was
         us.append(cost_unit("Square", ("J",), None, 2, entry="costIV", ts_sel=("J", "S"), x0_kind="float64"))
         us.append(cost_unit("Square", ("R", "J"), ("gamma",), 2, entry="cost", x0_kind="float64"))
+        us.append(cost_unit("Square", ("J",), None, 2, entry="costIV", ts_sel=("J",), x0_kind="int_list"))
+        us.append(cost_unit("Normal", ("R", "J"), ("gamma",), 2, entry="costIV", ts_sel=("S", "R"), x0_kind="int64"))
         # typed time inputs: integer observation times (array / list) with a fractional initial time
         us.append(cost_unit("Square", ("J", "S"), None, 2, time_kind="int_array"))
         us.append(cost_unit("Normal", ("R",), ("gamma",), 3, time_kind="int_list"))
